@@ -118,6 +118,7 @@ func Load(repo string, cfg BuildConfig) (*Ctx, error) {
 	if c.ByPath[modPath+"/lisp"] == nil {
 		return nil, fmt.Errorf("LOAD: anchor package %s/lisp missing", modPath)
 	}
+	c.computeRenames()
 	return c, nil
 }
 
@@ -193,7 +194,20 @@ func (c *Ctx) Pkg(relPath string) *packages.Package {
 // ---- naming ----
 
 // FuncName renders a types.Func as "lisp.(*LEnv).funCall" (module-relative).
+// nameCanon maps the current name of a renamed unexported function to the name
+// it had on the audited tree (see anchors.go); tables and reports use the
+// audited name.
+var nameCanon = map[string]string{}
+
 func FuncName(fn *types.Func) string {
+	n := funcNameRaw(fn)
+	if o, ok := nameCanon[n]; ok {
+		return o
+	}
+	return n
+}
+
+func funcNameRaw(fn *types.Func) string {
 	if fn == nil {
 		return "<nil>"
 	}
@@ -213,6 +227,11 @@ func FuncName(fn *types.Func) string {
 		switch t := rt.(type) {
 		case *types.Named:
 			name = t.Obj().Name()
+			if t.Obj().Pkg() != nil {
+				if o, ok := typeCanon[t.Obj().Pkg().Path()+"."+name]; ok {
+					name = o[strings.LastIndex(o, ".")+1:]
+				}
+			}
 		case *types.Alias:
 			name = t.Obj().Name()
 		}
@@ -245,6 +264,10 @@ func SSAFuncName(f *ssa.Function) string {
 
 // LookupFunc finds "lisp.(*LEnv).funCall"-style names among declared functions.
 func (c *Ctx) LookupFunc(name string) (*types.Func, *ast.FuncDecl, *packages.Package) {
+	return c.lookupFuncExact(name) // the index is keyed by audited names (nameCanon)
+}
+
+func (c *Ctx) lookupFuncExact(name string) (*types.Func, *ast.FuncDecl, *packages.Package) {
 	idx, _ := c.memo["funcIndex"].(map[string]*types.Func)
 	if idx == nil {
 		idx = map[string]*types.Func{}
@@ -272,6 +295,15 @@ func (c *Ctx) LookupType(name string) *types.Named {
 	}
 	obj := p.Types.Scope().Lookup(name[i+1:])
 	if obj == nil {
+		// an unexported type known under another name now (typeCanon)
+		for nw, old := range typeCanon {
+			if old == p.PkgPath+"."+name[i+1:] {
+				if o2 := p.Types.Scope().Lookup(nw[strings.LastIndex(nw, ".")+1:]); o2 != nil {
+					n, _ := o2.Type().(*types.Named)
+					return n
+				}
+			}
+		}
 		return nil
 	}
 	n, _ := obj.Type().(*types.Named)
@@ -294,6 +326,9 @@ func (c *Ctx) LookupField(name string) *types.Var {
 			return st.Field(k)
 		}
 	}
+	if unexportedName(name) {
+		return c.renamedField(name)
+	}
 	return nil
 }
 
@@ -309,6 +344,15 @@ func (c *Ctx) LookupMethod(name string) *types.Func {
 			return n.Method(k)
 		}
 	}
+	if unexportedName(name) {
+		// the audited tree knows the method under its FuncName, with a value or pointer receiver
+		pkgPart, typ := name[:i][:strings.LastIndex(name[:i], ".")], name[:i][strings.LastIndex(name[:i], ".")+1:]
+		for _, form := range []string{pkgPart + ".(*" + typ + ")." + name[i+1:], pkgPart + "." + typ + "." + name[i+1:]} {
+			if r, _, _ := c.lookupFuncExact(form); r != nil {
+				return r // known under its audited name (nameCanon)
+			}
+		}
+	}
 	return nil
 }
 
@@ -320,6 +364,11 @@ func (c *Ctx) LookupPkgFunc(name string) *types.Func {
 		return nil
 	}
 	fn, _ := p.Types.Scope().Lookup(name[i+1:]).(*types.Func)
+	if fn == nil && unexportedName(name) {
+		if r, _, _ := c.lookupFuncExact(name); r != nil {
+			return r // known under its audited name (nameCanon)
+		}
+	}
 	return fn
 }
 
